@@ -458,3 +458,34 @@ def apply_exclusions(cfg: Cfg, exclude) -> Cfg:
     if "subquery_bool_root" in ex:
         cfg.allow_subquery_bool_root = False
     return cfg
+
+
+@st.composite
+def multi_query_ir(draw, cfg: Cfg, max_queries=3):
+    """A pool: shared variables, shared condition objects, and several queries built from them."""
+    ctx = _Ctx(draw, cfg)
+    world, ctx.flags = _world(draw, cfg)
+    ctx.n_objs = len(world["objs"])
+    n_vars = draw(st.integers(1, cfg.max_vars))
+    for i in range(n_vars):
+        ctx.vars.append({"type": draw(st.sampled_from(["Item", "Item", "Item", "SpecialItem"])),
+                         "dom": draw(_domain(cfg, ctx.n_objs, cfg.allow_noise)),
+                         "gen": draw(st.booleans()) if cfg.allow_generators else False, "local": False, "sub": None})
+    scope = [("var", i) for i in range(n_vars)]
+    shared = [ctx.cond_c02(draw(st.lists(st.sampled_from(scope), min_size=1, max_size=2, unique=True)), draw(st.integers(0, 1)))
+              for _ in range(draw(st.integers(0, 2)))]
+    queries = []
+    for _ in range(draw(st.integers(1, max_queries))):
+        sub = draw(st.lists(st.sampled_from(scope), min_size=1, max_size=len(scope), unique=True))
+        conds = [ctx.cond_c02(sub, draw(st.integers(0, cfg.depth))) for _ in range(draw(st.sampled_from([0, 1, 1, 2])))]
+        for k, sc in enumerate(shared):
+            if draw(st.sampled_from([0, 0, 1])):
+                ref = {"c": "shared", "i": k, "ref": sc}
+                conds.append({"c": "not", "x": ref} if draw(st.sampled_from([0, 0, 1])) else ref)
+        from .lang import cond_refs
+        refs = set(tuple(r) for r in sub)
+        for c in conds:
+            refs |= cond_refs(c)
+        terms = [{"t": k, "i": i} for (k, i) in sorted(refs)]
+        queries.append({"conds": conds, "sel": {"kind": "set_of" if len(terms) > 1 or draw(st.booleans()) else "entity", "terms": terms}})
+    return {"world": world, "vars": ctx.vars, "dvars": [], "queries": queries}
